@@ -318,6 +318,10 @@ class MemoryFileSystem(FileSystem):
       self, path: Union[str, os.PathLike[str]], mode: int = 0o777
   ) -> None:
     del mode
+    # A trailing slash names the same directory, as it does for `os.mkdir`.
+    stripped = resolve_path(path).rstrip('/')
+    if stripped and stripped != self._prefix.rstrip('/'):
+      path = stripped
     parent_dir, name = self._parent_and_name(path)
     if name in parent_dir:
       raise FileExistsError(path)
